@@ -231,6 +231,11 @@ func repoOracles(r *Run, focus string, idx int, cfg repoCfg, steps []repoStep, w
 		if o.Kind == "restartcfg" {
 			cfg.Sig = o.Sig // what the oracles below judge by is the mode the process runs with now
 		}
+		if o.Kind == "restart" || o.Kind == "restartcfg" {
+			// what a running process remembers about its last refresh (the failed-verification flag and the rejected list) is gone
+			failedVerify = map[int]int{}
+			vouched = map[int]int{}
+		}
 		cur, ok := parseRepoSnapshot(st.Obs)
 		if !ok {
 			cur = prev // racy snapshot (spawned background load): judged at the following tick
